@@ -34,25 +34,42 @@ SCALARS = ["float64", "float32", "complex128", "complex64"]
 REAL_OF = {"float64": "float64", "float32": "float32", "complex128": "float64", "complex64": "float32"}
 
 THEOREMS = [
+    # finite tables, regenerated from /repo on every run
     "Ffcx.LNodes.Fmt.prec_table_agrees",
     "Ffcx.LNodes.Fmt.math_names_injective",
     "Ffcx.LNodes.Fmt.local_faithful",
     "Ffcx.LNodes.Fmt.local_faithful_multiindex_counterexample",
     "Ffcx.LNodes.Fmt.local_faithful_py",
     "Ffcx.LNodes.Fmt.local_faithful_py_chain_counterexample",
+    # no token fusion
     "Ffcx.LNodes.Fmt.lex_render",
     "Ffcx.LNodes.Fmt.separated_pieces",
     "Ffcx.LNodes.Fmt.no_token_fusion_counterexample",
     "Ffcx.LNodes.Fmt.no_token_fusion_partial",
+    # C round trip (expressions: full)
+    "Ffcx.LNodes.Fmt.parse_mono_all",
+    "Ffcx.LNodes.Fmt.rt_all",
     "Ffcx.LNodes.Fmt.parse_tokens_C",
     "Ffcx.LNodes.Fmt.eraseC_norm",
     "Ffcx.LNodes.Fmt.roundtrip_C",
     "Ffcx.LNodes.Fmt.roundtrip_C_WT",
     "Ffcx.LNodes.Fmt.roundtrip_C_counterexample",
+    "Ffcx.LNodes.Fmt.literal_texts_are_tokens",
+    "Ffcx.LNodes.Fmt.norm_eval",
+    # statements (partial), numba (partial + counterexamples)
+    "Ffcx.LNodes.Fmt.roundtrip_stmt_partial",
+    "Ffcx.LNodes.Fmt.roundtrip_Py_partial",
+    "Ffcx.LNodes.Fmt.roundtrip_Py_chain_counterexample",
+    "Ffcx.LNodes.Fmt.roundtrip_Py_bessel_counterexample",
+    # literals
+    "Ffcx.LNodes.Fmt.literal_1ulp_counterexample",
+    "Ffcx.LNodes.Fmt.literal_16digits_partial",
+    "Ffcx.LNodes.Fmt.literal_exact_17",
 ]
 HELPER_FILES = ["FfcxProofs/Lemmas/" + f for f in (
     "FormatTables.lean", "FormatParse.lean", "FormatRT.lean", "FormatRTCases.lean", "FormatRTAll.lean",
-    "FormatLex.lean", "FormatSep.lean", "FormatSepExpr.lean", "FormatNorm.lean")]
+    "FormatLex.lean", "FormatSep.lean", "FormatSepExpr.lean", "FormatNorm.lean", "FormatNum.lean",
+    "FormatLit.lean", "FormatStmt.lean", "FormatPy.lean", "FormatEval.lean", "FormatShape.lean")]
 
 REAL, SCALAR, INT, BOOL = L.DataType.REAL, L.DataType.SCALAR, L.DataType.INT, L.DataType.BOOL
 
@@ -100,6 +117,8 @@ def child_variants():
         ("Product:2", "a", L.Product([x, y])), ("Product:1", "a", L.Product([y])),
         ("MathFunction:1", "a", L.MathFunction("sqrt", [x])),
         ("MathFunction:2", "a", L.MathFunction("power", [y, x])),
+        ("MathFunction:bessel", "a", L.MathFunction("bessel_j", [L.LiteralInt(1), x])),
+        ("MathFunction:erf", "a", L.MathFunction("erf", [x])),
         ("ArrayAccess:1", "a", L.ArrayAccess(T, [i])),
         ("ArrayAccess:2", "a", L.ArrayAccess(U, [i, L.LiteralInt(0)])),
         ("Conditional", "a", L.Conditional(c1, x, y)),
@@ -700,7 +719,7 @@ def lstmt_tuples(s, lang, scalar):
                 return [("decl", tuple(ty), s.symbol.name, sizes, None)]
             q_ = (["static", "const"] if s.const else []) + ty
             return [("decl", tuple(q_), s.symbol.name, sizes, _nest(np.asarray(s.values), lang))]
-        npname = {SCALAR: "np." + scalar, REAL: "np." + REAL_OF[scalar], INT: "np.int32", BOOL: "np.bool"}[s.symbol.dtype]
+        npname = {SCALAR: "np." + scalar, REAL: "np." + REAL_OF[scalar], INT: "np.int32", BOOL: "np.bool_"}[s.symbol.dtype]
         dtype = ("kw", "dtype", ("id", npname))
         szt = ("tuple", tuple(_num(x) for x in sizes))
         if s.values is None:
@@ -799,6 +818,8 @@ def py_stmt_tuples(body):
             out.append(("assign", "=", py_tuple(n.targets[0]), py_tuple(n.value)))
         elif isinstance(n, pyast.AugAssign) and isinstance(n.op, pyast.Add):
             out.append(("assign", "+=", py_tuple(n.target), py_tuple(n.value)))
+        elif isinstance(n, pyast.Pass):
+            continue
         elif isinstance(n, pyast.For):
             it = n.iter
             ok = (isinstance(n.target, pyast.Name) and isinstance(it, pyast.Call) and isinstance(it.func, pyast.Name)
@@ -835,8 +856,14 @@ class Ctx:
         self.negzero_skipped = 0
         self.unrepresentable = 0
         self.viol_seen = set()
+        self.in_kernels = {}
 
     def violation(self, key, what, payload):
+        where = (payload or {}).get("where")
+        if where and "#" in str(where):  # found in a kernel the real pipeline generated
+            lst = self.in_kernels.setdefault(key, [])
+            if len(lst) < 5 and where not in lst:
+                lst.append(where)
         if key in self.viol_seen:
             return
         self.viol_seen.add(key)
@@ -872,6 +899,7 @@ def check_expr(cx, label, wt, e, scalars, do_py=True):
             chk.disagree("C formatter text: real vs Lean model", {"tree": sx, "scalar": sc, "impl": real, "model": model})
             continue
         lex_ok, rt_ok = r[2] == "true", r[3] == "true"
+        model_wt = {"wellformed_wfC": r[4] == "true", "kind": r[5]}
         want = lnodes_tuple(e, "c", sc)
         got = c_parse_expr(real)
         lits = []
@@ -887,7 +915,7 @@ def check_expr(cx, label, wt, e, scalars, do_py=True):
             cx.violation(key, f"C text `{real[:80]}` does not parse back to the AST ({'value changes' if vd else 'parse error or other tree'})",
                          {"lang": "C", "scalar": sc, "tree": sx, "text": real, "minimal": export.expr(m),
                           "minimal_text": cx.cf[sc](m), "pycparser": str(got)[:300], "intended": str(want)[:300],
-                          "value_differs": vd, "well_typed": bool(wt)})
+                          "value_differs": vd, "operand_kinds_match": bool(wt), "lean_WT": model_wt})
         else:
             if sc == "float64":
                 for tv, xv in lits:
@@ -934,12 +962,50 @@ def check_expr(cx, label, wt, e, scalars, do_py=True):
         vd = value_differs(e, got, "py", "float64", cx.rng) if got[0] != "error" else None
         cx.violation(key, f"numba text `{real[:80]}` does not parse back to the AST ({'value changes' if vd else 'syntax error or other tree'})",
                      {"lang": "numba", "tree": sx, "text": real, "minimal": export.expr(m), "minimal_text": nf(m),
-                      "ast": str(got)[:300], "intended": str(want)[:300], "value_differs": vd, "well_typed": bool(wt)})
+                      "ast": str(got)[:300], "intended": str(want)[:300], "value_differs": vd,
+                      "operand_kinds_match": bool(wt), "lean_WT": {"wellformed_wfC": r[4] == "true", "kind": r[5]}})
     else:
         for tv, xv in lits:
             if tv != xv:
                 cx.violation("literal:numba:not-exact", f"numba literal {float(xv)!r} does not read back exactly",
                              {"value": float(xv).hex(), "text": real, "tree": sx})
+
+
+def stmt_children(s):
+    t = type(s)
+    if t is L.Statement:
+        return [s.expr] if isinstance(s.expr, L.LNode) and not isinstance(s.expr, L.LExpr) else []
+    if t is L.Section:
+        return list(s.declarations) + list(s.statements)
+    if t is L.StatementList:
+        return list(s.statements)
+    if t is L.ForRange:
+        return list(s.body.statements)
+    return []
+
+
+def stmt_exprs(s):
+    t = type(s)
+    if t is L.Statement:
+        return stmt_exprs(s.expr)
+    if t in (L.Assign, L.AssignAdd):
+        return [s.lhs, s.rhs]
+    if t is L.VariableDecl:
+        return [s.value] if s.value is not None else []
+    if t is L.ForRange:
+        return [s.begin, s.end]
+    return []
+
+
+def minimal_failing_stmt(s, fails):
+    for c in stmt_children(s):
+        try:
+            bad = fails(c)
+        except Exception:
+            bad = True
+        if bad:
+            return minimal_failing_stmt(c, fails)
+    return s
 
 
 def stmt_cause(lang, s, got):
@@ -1004,9 +1070,36 @@ def check_stmt(cx, label, s, scalars, do_py=True, localise=True):
                 allok = False
             if not indep_ok:
                 allok = False
-                cx.violation(stmt_cause(lang, s, got),
+
+                def sfails(u, lang=lang, sc=sc, fm=fm):
+                    g = c_parse_stmts(fm(u)) if lang == "c" else py_parse_stmts(fm(u))
+                    return not same_tree(tuple(g), tuple(lstmt_tuples(u, lang, sc)))
+                ms = minimal_failing_stmt(s, sfails)
+                key = stmt_cause(lang, ms, c_parse_stmts(fm(ms)) if lang == "c" else py_parse_stmts(fm(ms)))
+                # an expression inside the minimal statement?
+                for e in stmt_exprs(ms):
+                    try:
+                        if lang == "c":
+                            bad = not same_tree(c_parse_expr(fm(e)), lnodes_tuple(e, "c", sc))
+                        else:
+                            bad = not same_tree(py_parse_expr(fm(e)), lnodes_tuple(e, "py"))
+                    except Exception:
+                        bad = True
+                    if bad:
+                        if lang == "c":
+                            me = minimal_failing(e, lambda u: not same_tree(c_parse_expr(fm(u)), lnodes_tuple(u, "c", sc)))
+                        else:
+                            me = minimal_failing(e, lambda u: not same_tree(py_parse_expr(fm(u)), lnodes_tuple(u, "py")))
+                        key = cause_key(lang, me)
+                        break
+                try:
+                    ms_sexp, ms_text = stmt_sexp(ms)[:600], fm(ms)[:300]
+                except Exception:
+                    ms_sexp, ms_text = "?", "?"
+                cx.violation(key,
                              f"{'C' if lang == 'c' else 'numba'} statement text does not parse back to the statement tree",
-                             {"lang": lang, "scalar": sc, "stmt": sx[:800], "text": real[:400], "independent": str(got)[:300], "intended": str(want)[:300]})
+                             {"lang": lang, "scalar": sc, "where": label, "minimal_stmt": ms_sexp, "minimal_text": ms_text,
+                              "stmt": sx[:800], "text": real[:400], "independent": str(got)[:300], "intended": str(want)[:300]})
             elif lang == "c" and sc == "float64":
                 for tv, xv in lits:
                     u = ulps_off(tv, xv)
@@ -1110,7 +1203,13 @@ def check_numbers(cx, n):
         num, den = x.as_integer_ratio()
         rat = f"{num}/{den}" if den != 1 else str(num)
         py16, pyr = f"{x:.16}", repr(x)
-        m16, mr = d.ask(f"(numcheck {rat})")
+        m16, mr, mv, mvr = d.ask(f"(numcheck {rat})")
+        if Fraction(mvr) != Fraction(pyr):
+            chk.disagree("value-level literal: litValueR x vs the value of Python's repr(x) text",
+                         {"x": x.hex(), "python_text": pyr, "model_value": mvr})
+        if Fraction(mv) != Fraction(py16):
+            chk.disagree("value-level literal: litValue 16 x vs the value of Python's f'{x:.16}' text",
+                         {"x": x.hex(), "python_text": py16, "model_value": mv})
         chk.case("number", key=f"16:{py16}" if ("e" in py16 or len(py16) > 17) else None)
         if m16 != py16:
             chk.disagree("number printing f'{x:.16}': Python vs Lean fmtFloat16", {"x": x.hex(), "python": py16, "model": m16})
@@ -1126,17 +1225,27 @@ def check_numbers(cx, n):
             chk.disagree("readNum vs fractions.Fraction on the printed text", {"text": py16, "model": rd})
         elif math.isfinite(back) and Fraction(rd[2]) != Fraction(back):
             chk.disagree("round64 vs float() on a decimal", {"text": py16, "python": back.hex(), "model": rd[2]})
-        # the property's own oracle on the real printing: how far is the literal a compiler reads?
-        if x != 0 and math.isfinite(back):
-            u = abs(Fraction(back) - Fraction(x)) / Fraction(math.ulp(x))
+        # the property's own oracle on the REAL formatters: how far is the literal a compiler / Python reads?
+        ctext = cx.cf["float64"](L.LiteralFloat(x))
+        ptext = cx.nf["float64"](L.LiteralFloat(x))
+        try:
+            cback = float(ctext)
+        except ValueError:
+            cback = float("nan")
+        if x != 0:
+            u = (abs(Fraction(cback) - Fraction(x)) / Fraction(math.ulp(x))) if math.isfinite(cback) else Fraction(10**6)
             worst = max(worst, float(u))
             if u > 1:
                 over1 += 1
-                cx.violation("literal:16-digits:>1ulp", f"f'{{x:.16}}' of {x!r} is '{py16}', which reads back {float(u):.3g} ulp off",
-                             {"value": x.hex(), "text": py16, "ulps": float(u)})
-        if float(pyr) != x:
-            cx.violation("literal:numba:not-exact", f"repr({x!r}) does not read back", {"value": x.hex()})
-    chk.notes["numbers"] = {"samples": n, "worst_ulps_16_digits": worst, "over_1ulp": over1, "seconds": round(time.time() - t0, 1)}
+                cx.violation("literal:16-digits:>1ulp", f"the C formatter prints {x!r} as '{ctext}', which reads back {float(u):.3g} ulp off",
+                             {"value": x.hex(), "text": ctext, "ulps": float(u)})
+        try:
+            pback = float(ptext)
+        except ValueError:
+            pback = float("nan")
+        if pback != x:
+            cx.violation("literal:numba:not-exact", f"the numba formatter prints {x!r} as '{ptext}', which does not read back", {"value": x.hex(), "text": ptext})
+    chk.notes["numbers"] = {"samples": n, "worst_ulps_c_literal": worst, "over_1ulp": over1, "seconds": round(time.time() - t0, 1)}
 
 
 def confirm_with_compiler(cx):
@@ -1214,13 +1323,17 @@ def run(chk):
         check_numbers(cx, 5200 if quick else 40000)
         # ---- real kernels
         t0 = time.time()
-        entries = corpus.fixed() + corpus.expressions()
-        if not quick:
-            entries += corpus.complex_forms() + corpus.demos() + corpus.generated(chk.seed, 40)
+        if quick:
+            # a fixed list (deterministic under load): the two demos with integer tables / every math
+            # function first, then hand-written forms of every integral type, expressions, one complex form
+            entries = [e for e in corpus.demos() if e.name in ("demo_CellGeometry", "demo_MathFunctions")]
+            entries += corpus.fixed()[:24] + corpus.expressions()[:5] + corpus.complex_forms()[:1]
+            entries += corpus.generated(chk.seed, 3)
         else:
-            entries += corpus.complex_forms()[:1] + corpus.generated(chk.seed, 4)
+            entries = corpus.fixed() + corpus.expressions() + corpus.complex_forms() + corpus.demos()
+            entries += corpus.generated(chk.seed, 40)
         nk = ns = 0
-        budget = 95 if quick else 1200
+        budget = 400 if quick else 1500  # safety net only; a truncation is recorded in the evidence
         for ent in entries:
             if time.time() - t0 > budget:
                 chk.notes["kernels_truncated_at"] = ent.name
@@ -1229,7 +1342,9 @@ def run(chk):
             opts = pipeline.default_options(scalar_type="complex128") if cplx else None
             try:
                 cases, _, _ = kernels.cases_for_entry(ent, opts)
-            except Exception as ex:  # a form the pipeline cannot build is another property's business
+            except KeyboardInterrupt:
+                raise
+            except BaseException as ex:  # (UFL's ArityMismatch is a BaseException) a form the pipeline cannot build is another property's business
                 chk.notes.setdefault("kernel_build_errors", []).append(f"{ent.name}: {type(ex).__name__}")
                 continue
             for cs in cases:
@@ -1237,10 +1352,11 @@ def run(chk):
                 scal = ["complex128", "complex64"] if cplx else (["float64"] if quick else SCALARS)
                 for k, s in enumerate(kernel_statements(cs.ast)):
                     ns += 1
-                    check_stmt(cx, f"{cs.name}#{k}" if ns % 7 == 0 else None, s, scal)
+                    check_stmt(cx, f"{cs.name}#{k}", s, scal)
         chk.programs = nk
         chk.notes["kernels"] = {"kernels": nk, "statements": ns, "seconds": round(time.time() - t0, 1)}
         chk.notes["literals"] = {"checked": cx.lit_count, "over_1ulp": cx.lit_over, "worst": cx.lit_worst}
+        chk.notes["violations_seen_in_generated_kernels"] = cx.in_kernels
         chk.notes["skipped_negative_zero"] = cx.negzero_skipped
         chk.notes["skipped_unrepresentable_initialiser"] = cx.unrepresentable
         res = confirm_with_compiler(cx)
